@@ -491,6 +491,18 @@ func runC05(rc *RunCtx) {
 	if !block(6 * time.Second) {
 		return
 	}
+	// some providers always spell their own address in upper case in their proofs (valid bech32, same signer)
+	upper := map[int]bool{}
+	for p := 2; p <= 4; p++ {
+		upper[p] = rc.Chance(0.25)
+	}
+	prove := func(p int, wf *WFile) ProofResult {
+		if upper[p] {
+			rc.Count("proofs_with_upper_case_creator", 1)
+			return w.ProveHonestUpper(p, wf)
+		}
+		return w.ProveHonest(p, wf)
+	}
 	// ---- scaffold
 	for o := 0; o < 2; o++ {
 		w.BuyPlan(o, o, int64(20+rc.Intn(50))*1_000_000_000, int64(30+rc.Intn(300)), "")
@@ -504,7 +516,7 @@ func runC05(rc *RunCtx) {
 		if r.OK() {
 			for p := 2; p <= 4; p++ {
 				if rc.Chance(0.7) {
-					if w.ProveHonest(p, wf).Success {
+					if prove(p, wf).Success {
 						w.honest = append(w.honest, struct {
 							p int
 							w *WFile
@@ -527,7 +539,7 @@ func runC05(rc *RunCtx) {
 				rc.Count("provers_gone_silent", 1)
 				continue
 			}
-			w.ProveHonest(h.p, h.w)
+			prove(h.p, h.w)
 			kept = append(kept, h)
 		}
 		w.honest = kept
@@ -662,7 +674,7 @@ func runC05(rc *RunCtx) {
 		for _, wf := range w.Files {
 			if rc.Chance(0.3) {
 				p := 2 + rc.Intn(3)
-				if w.ProveHonest(p, wf).Success {
+				if prove(p, wf).Success {
 					w.honest = append(w.honest, struct {
 						p int
 						w *WFile
